@@ -44,7 +44,7 @@ def bad_operator(inputs, value):
 
 
 def run(ctx: Ctx):
-  for r in (r1, r2, r3, r4, r8, r9, r10, r13, r15):
+  for r in (r1, r2, r3, r4, r8, r9, r10, r13, r15, r16):
     ctx.guard(r)
   from mlmverif.props import c18, c19
   ctx.include('R-C08-5', '"leaves the caller\'s input objects untouched": the'
@@ -65,6 +65,10 @@ def run(ctx: Ctx):
   ctx.include('R-C08-14', '"assign adds exactly the named keys": an output routed to Key.SKIP is'
               ' discarded whatever its position — the reserved keys mean the same on an empty'
               ' record as on an existing one (R-C18-9)', c18.r9, min_instances=2)
+  ctx.include('R-C08-17', '"invalid ... combinations are rejected, not silently mis-routed": when records are re-batched'
+              ' (batch(), batch_size / fn_batch_size of an operator) every column of every incoming batch is measured and'
+              ' columns of different length raise — otherwise the columns are concatenated and re-sliced independently and'
+              ' row i of one column is paired with row j of another (R-C19-1)', c19.r1, min_instances=3)
   from mlmverif.props import c12
   ctx.include('R-C08-7', '"filter keeps order and drops exactly the rejected'
               ' records": with error skipping the decisions stay paired with'
@@ -253,6 +257,61 @@ def r15(ctx: Ctx):
   else:
     ctx.ok(rule, fi, f'_identity_fn(*{va}) returns {va}', rets[0])
   ctx.floor(rule, 1)
+
+
+def r16(ctx: Ctx):
+  rule = 'R-C08-16'
+  ctx.rule(rule, '"all key shapes (... literal)": a Key.Literal input contributes its constant WITHOUT looking into the record —'
+           ' in the getter of the tree view the `isinstance(k, Literal)` test comes before anything that depends on the kind'
+           ' of the current node (the Mapping / array test, the subscript, the KeyError for non-containers): every such node'
+           ' is dominated by the Literal test. Otherwise `apply(pow, (SELF, Literal(2)))` on a stream of ints, or any literal'
+           ' on str / dataclass records, raises KeyError instead of passing the constant')
+  repo = ctx.repo
+  ci = repo.cls('chainables.tree', 'TreeMapView')
+  cands = [m for m in ci.methods.values() if any(
+      isinstance(c, ast.Call) and unparse(c.func) == 'isinstance' and len(c.args) == 2 and unparse(c.args[1]) == 'Literal'
+      for c in ast.walk(m.node))]
+  if not cands:
+    raise AnalysisError(f'{rule}: no TreeMapView method tests for a Literal key')
+  n = 0
+  for fi in cands:
+    g = cfgm.cfg_of(fi.node)
+    lit = [nd for nd in g.nodes if nd.kind == 'cond' and any(
+        isinstance(c, ast.Call) and unparse(c.func) == 'isinstance' and len(c.args) == 2 and unparse(c.args[1]) == 'Literal'
+        for c in ast.walk(nd.ast))]
+    if not lit:
+      continue
+    keyvar = next(unparse(c.args[0]) for nd in lit for c in ast.walk(nd.ast)
+                  if isinstance(c, ast.Call) and unparse(c.func) == 'isinstance' and unparse(c.args[1]) == 'Literal')
+    loops = [l for l in walk_no_nested(fi.node) if isinstance(l, ast.For) and unparse(l.target) == keyvar]
+    if not loops:
+      continue
+    inloop = {id(y) for l in loops for y in ast.walk(l)}
+    dep = []
+    for nd in g.nodes:
+      if nd.ast is None or id(nd.ast) not in inloop or nd in lit or nd.kind == 'for_iter':
+        continue
+      exprs = cfgm.node_exprs(nd)
+      uses_node_kind = isinstance(nd.ast, ast.Raise) or any(
+          (isinstance(y, ast.Subscript) and isinstance(y.slice, ast.Name) and y.slice.id == keyvar)
+          or (isinstance(y, ast.Call) and unparse(y.func) in ('isinstance', 'types.is_array_like') and y.args
+              and unparse(y.args[0]) != keyvar and unparse(y.args[-1]) != 'Literal'
+              and not (unparse(y.func) == 'isinstance' and unparse(y.args[0]) == keyvar))
+          for x in exprs for y in ast.walk(x))
+      if uses_node_kind:
+        dep.append(nd)
+    for nd in dep:
+      n += 1
+      w = g.dominates(lambda a: a in lit, nd)
+      what = f'{fi.qualname}: `{nd.text()[:50]}` only after the Literal test'
+      if w is None:
+        ctx.ok(rule, fi, what, nd.ast)
+      else:
+        ctx.fail(rule, fi, f'{fi.qualname}: the Literal test precedes every test of the node kind',
+                 f'`{nd.text()[:70]}` (line {nd.lineno}) can run before `isinstance({keyvar}, Literal)` is tested: a literal'
+                 ' key then depends on the record being a container — on int / str / object records it raises KeyError'
+                 ' instead of contributing its constant', node=nd.ast)
+  ctx.floor(rule, 2, n)
 
 
 
@@ -715,6 +774,13 @@ from mlmverif.selfcheck import B, OK  # noqa: E402
 _F = 'chainables/tree_fns.py'
 _T = 'chainables/transform.py'
 VARIANTS = [
+    B('literal-after-the-container-check', 'chainables/tree.py',
+      "      if isinstance(k, Literal):\n        return k.value\n      if types.is_array_like(data) or isinstance(data, Mapping):\n        data = data[k]\n      else:\n        raise KeyError(",
+      "      if not (types.is_array_like(data) or isinstance(data, Mapping)):\n        raise KeyError('not a container')\n      if isinstance(k, Literal):\n        return k.value\n      if True:\n        data = data[k]\n      else:\n        raise KeyError(",
+      'R-C08-16'),
+    OK('literal-test-first-then-self', 'chainables/tree.py',
+       "      if _is_key(k, Key.SELF):\n        return self._maybe_map(data)\n      if isinstance(k, Literal):\n        return k.value\n",
+       "      if isinstance(k, Literal):\n        return k.value\n      if _is_key(k, Key.SELF):\n        return self._maybe_map(data)\n"),
     B('identity-fn-unwraps-single-value', 'chainables/tree_fns.py',
       'def _identity_fn(*x):\n  return x', 'def _identity_fn(*x):\n  return x[0] if len(x) == 1 else x', 'R-C08-15'),
     B('assign-key-check-skipped-when-nothing-assigned', 'chainables/transform.py',
